@@ -474,6 +474,12 @@ def filter_dead_code_nodes(graph: G, entry_node: ProgramNode) -> G:
                 # dead code and thus removed.
                 graph.graph.remove_node(node)
                 has_changed = True
+    # Nodes on (or behind) a cycle that cannot be reached from the entry node keep
+    # each other alive in the loop above, but they are dead code as well.
+    reachable = nx.descendants(graph.graph, entry_node) | {entry_node}
+    for node in tuple(graph.nodes):
+        if node not in reachable:
+            graph.graph.remove_node(node)
     return graph
 
 
@@ -675,11 +681,14 @@ class CFG(ProgramGraph):
         # Add yield nodes
         exit_nodes.update(CFG._get_yield_nodes(cfg))
 
-        # Add infinite loop nodes
+        # Add infinite loop nodes. Cycles that cannot be reached from the entry node
+        # (e.g., a loop that is only reachable through an exception handler) are dead
+        # code in this graph and are filtered afterwards.
         exit_nodes.update(
             loop_entry
             for cycle in nx.simple_cycles(cfg.graph)
-            if cfg.get_descendants(
+            if cycle[0] in distances_to_entry_point
+            and cfg.get_descendants(
                 loop_entry := min(cycle, key=lambda node: distances_to_entry_point[node])
             ).isdisjoint(exit_nodes)
         )
